@@ -500,7 +500,10 @@ parse_next_record_header:
 	     * return an error to avoid infinite loop */
 	    if (p_start == p)
 	    {
-        	return PS_FAILURE;
+		/* What is left is not even a handshake header: a decoding
+		   error, which must end the session like any other */
+		ssl->err = SSL_ALERT_DECODE_ERROR;
+		goto encodeResponse;
 	    }
         }
     }
